@@ -635,7 +635,20 @@ func runCheck(o checkOpts) *CheckOutcome {
 		outDir = filepath.Join(o.verif, "out", "_selftest", o.prop+"-"+o.mutantTag)
 	}
 	os.RemoveAll(outDir)
-	results := dischargeAll(all, outDir, timeout, o.seed, o.tier == "thorough", o.workers)
+	// on a machine that is already overloaded, more parallel solver processes only lengthen every run (verdicts are CPU-time
+	// limited, but the wall-clock backstop is finite): throttle the number of obligations in flight
+	workers := o.workers
+	if data, err := os.ReadFile("/proc/loadavg"); err == nil {
+		var l1 float64
+		fmt.Sscanf(string(data), "%f", &l1)
+		switch {
+		case l1 > 64 && workers > 2:
+			workers = 2
+		case l1 > 24 && workers > 4:
+			workers = 4
+		}
+	}
+	results := dischargeAll(all, outDir, timeout, o.seed, o.tier == "thorough", workers)
 	out.SolveS = time.Since(t2).Seconds()
 	out.Results = results
 	replayDir := filepath.Join(o.verif, "replay", o.prop)
